@@ -130,6 +130,9 @@ func parseContractFile(path, pkgPath string) ([]*Contract, []*SpecFn, error) {
 			if len(head) > 1 && head[1] == "fresh" {
 				sf.Lemma = true // reused flag: reference results are freshly allocated
 			}
+			if len(head) > 1 && head[1] == "pure" {
+				sf.PTypes = []string{"pure"} // reused field: the result is a function of receiver and arguments
+			}
 			if len(parts) == 2 {
 				sf.Reason = strings.TrimSpace(parts[1])
 			}
